@@ -578,6 +578,11 @@ func runSession(c *Ctx, sidBase string, mode string) {
 		stopAt = c.Intn(40)
 	}
 	history := []delivery{}
+	// what each party was given as the broadcast of (round, sender): first accepted copy
+	views := make([]map[string]string, n)
+	for i := range views {
+		views[i] = map[string]string{}
+	}
 	for len(pending) > 0 && steps < 400 {
 		steps++
 		if steps == stopAt {
@@ -613,7 +618,29 @@ func runSession(c *Ctx, sidBase string, mode string) {
 		})
 		c.Emit("accept", J{"sid": nd.sid, "msg": msgJ(d.m), "kind": d.kind}, ob)
 		c.Count("handler/delivery/" + d.kind)
+		if can && d.m.Broadcast && d.m.RoundNumber > 0 {
+			k := fmt.Sprintf("%d|%s", d.m.RoundNumber, hx([]byte(d.m.From)))
+			if _, ok := views[d.to][k]; !ok {
+				views[d.to][k] = hx(d.m.Data)
+			}
+		}
 		enqueue(d.to, nil, nd.lastRaw())
+	}
+	if mode == "equivocate" || mode == "honest" {
+		// C06, judged on the observation itself: honest parties that completed hold identical views of
+		// every broadcast round that is followed by a further round
+		parties := []J{}
+		for j := 0; j < n; j++ {
+			term := "running"
+			if v, err := nodes[j].h.Result(); err == nil {
+				term = fmt.Sprintf("result:%d", v.(uint64))
+			} else if err.Error() != "protocol: not finished" {
+				term = "err"
+			}
+			parties = append(parties, J{"term": term, "views": views[j]})
+		}
+		c.Emit("views", J{"parties": parties, "rounds": sc0.Rounds, "cheater": cheater, "final": sc0.Final}, J{"ok": true})
+		c.Count("handler/views/" + mode)
 	}
 	// calls after the end: Stop on everyone, a late message
 	for j := 0; j < n; j++ {
